@@ -20,7 +20,7 @@ FUNCTIONS = [
     "jinja2.utils.url_quote",
 ]
 OUTSIDE = ["strings longer than the stated length bounds / outside the stated alphabets (mode B)",
-           "floating-point rounding of round/filesizeformat mantissas (only unit selection and exact small cases)"]
+           "last-digit float rounding of filesizeformat mantissas (the printed number is compared with the exact quotient to within half a printed digit) and of round() scaling (the exact and the float-scaled answer are both accepted)"]
 ASSUMPTIONS = ["float(int) raises OverflowError iff abs(x) >= 2**1024 (E3 stub, replayed natively)"]
 
 ENV = Environment()
@@ -198,17 +198,22 @@ def int_of_bool_none_ok(which: int, d: int) -> bool:
     return call("v|int(d)", v=vals[w], d=d) == ("ok", exp[w]) and call("v|float(dflt)", v=vals[w], dflt=d) == ("ok", fexp[w])
 
 
-def filesize_ok(k: int, delta: int, b: bool) -> bool:
+FS_MULT = [1, 5, 999]
+
+
+def filesize_ok(k: int, delta: int, b: bool, m: int) -> bool:
     """
-    pre: 1 <= k <= 9 and -1 <= delta <= 1
+    pre: 1 <= k <= 10 and -1 <= delta <= 1 and 0 <= m < len(FS_MULT)
     post: _
     """
-    kk = 1 + pick(k - 1, 9)
+    from fractions import Fraction
+    kk = 1 + pick(k - 1, 10)
     dd = pick(delta + 1, 3) - 1
+    mult = FS_MULT[pick(m, len(FS_MULT))]
     b = bool(b)
     with NoTracing():
         base = 1024 if b else 1000
-        v = base ** kk + dd
+        v = mult * base ** kk + dd
         r = call("v|filesizeformat(b)", v=v, b=b)
         if r[0] != "ok":
             return False
@@ -216,10 +221,19 @@ def filesize_ok(k: int, delta: int, b: bool) -> bool:
         units = ["KiB", "MiB", "GiB", "TiB", "PiB", "EiB", "ZiB", "YiB"] if b else ["kB", "MB", "GB", "TB", "PB", "EB", "ZB", "YB"]
         if v < base:
             return out == f"{v} Bytes"
-        if int(float(base ** kk)) != base ** kk or (float(v) != v and dd == -1):
+        if mult == 1 and (int(float(base ** kk)) != base ** kk or (float(v) != v and dd == -1)):
             return True  # boundary not exactly representable as a float: rounding decides, outside the claim
-        i = min(kk - 1 if dd >= 0 else kk - 2, 7)
-        return out.endswith(" " + units[i]) and (dd != 0 or kk > 8 or out.startswith("1.0 "))
+        i = min(kk - 1 if (dd >= 0 or mult > 1) else kk - 2, 7)
+        if not out.endswith(" " + units[i]):
+            return False
+        # the number in front of the unit is the size in that unit to one decimal place (sizes beyond the largest
+        # prefix keep that prefix): compare with the exact quotient, allowing float noise well below the printed digit
+        try:
+            mant = Fraction(out.split(" ")[0])
+        except ValueError:
+            return False
+        exact = Fraction(v, base ** (i + 1))
+        return abs(mant - exact) <= Fraction(1, 20) + exact / 10 ** 9
 
 
 def filesize_small_ok(v: int, b: bool) -> bool:
@@ -437,15 +451,15 @@ def int_base_ok(i: int, base: int) -> bool:
         return r == ("ok", exp)
 
 
-ROUND_VALS = [42.55, 2.5, -2.5, 0.125, 7, -7.77, 1e15 + 0.5, 0.0]
+ROUND_VALS = [42.55, 2.5, -2.5, 0.125, 7, -7.77, 1e15 + 0.5, 0.0, 2.00000000001, 1.99999999999, -6.99999999998, 1.1, 0.29, 1e-12, -1e-12, 5e-10, 123456.00000001]
 
 
 def round_ok(i: int, p: int, m: int) -> bool:
     """
-    pre: 0 <= i < 8 and 0 <= p <= 2 and 0 <= m <= 3
+    pre: 0 <= i < len(ROUND_VALS) and 0 <= p <= 2 and 0 <= m <= 3
     post: _
     """
-    v = ROUND_VALS[pick(i, 8)]
+    v = ROUND_VALS[pick(i, len(ROUND_VALS))]
     pp = pick(p, 3)
     mm = ["common", "ceil", "floor", "bogus"][pick(m, 4)]
     with NoTracing():
@@ -455,7 +469,12 @@ def round_ok(i: int, p: int, m: int) -> bool:
         if mm == "common":
             exp = round(v, pp)
         else:
-            exp = getattr(math, mm)(v * 10 ** pp) / 10 ** pp
+            from fractions import Fraction
+            # 'ceil' always rounds up, 'floor' always down: the exact answer for the float's own value, or the one
+            # obtained when the float product v * 10**p itself rounds (float noise of the scaling, nothing more)
+            exact = float(Fraction(getattr(math, mm)(Fraction(v) * 10 ** pp), 10 ** pp))
+            noisy = getattr(math, mm)(v * 10 ** pp) / 10 ** pp
+            return r[0] == "ok" and r[1] in (exact, noisy) and (isinstance(r[1], float) or isinstance(v, int))
         return r == ("ok", exp) and (isinstance(r[1], float) or isinstance(v, int))
 
 
@@ -519,7 +538,7 @@ def conditions(tier, seed):
         A("int(int)" + sfx, "int_of_int_ok", [[5, 0], [-10 ** 30, 1]], "all ints", asyncm=asyncm)
         A("float(int)" + sfx, "float_of_int_ok", [[5, 0], [3, 1]], "all ints incl. |v| >= 2**1024 (float() overflow stub)", asyncm=asyncm)
         B("int/float(bool,None,containers)" + sfx, "int_of_bool_none_ok", [[0, 7], [2, 7], [4, -1]], "6 non-numeric kinds, any default", asyncm=asyncm)
-        B("filesizeformat-unit" + sfx, "filesize_ok", [[1, -1, False], [1, 0, False], [3, 1, True], [9, 0, False]], "v = base**k + {-1,0,1}, k 1..9, both bases; unit selection at every boundary", asyncm=asyncm)
+        B("filesizeformat-unit" + sfx, "filesize_ok", [[1, -1, False, 0], [1, 0, False, 0], [3, 1, True, 1], [9, 0, False, 0], [10, 1, True, 2]], "v = m * base**k + {-1,0,1}, k 1..10, m in {1,5,999}, both bases; unit selection at every boundary and the printed number against the exact quotient (incl. sizes beyond the largest prefix)", asyncm=asyncm)
         B("filesizeformat-bytes" + sfx, "filesize_small_ok", [[1, True], [512, False]], "v < 1000 exact text", asyncm=asyncm)
         for strw in (False, True):
             B(f"indent[strwidth={strw}]" + sfx, "indent_ok", [[[0, 2, 0], 2, False, False, False], [[0, 2, 2], 1, True, True, True]], f"strings <= {pa['maxb']-1} over {A_INDENT!r}, width 0..2 / string width", asyncm=asyncm, strw=strw, maxb=pa["maxb"] - 1)
@@ -532,6 +551,6 @@ def conditions(tier, seed):
             B(f"urlencode[{shn}]" + sfx, "urlencode_ok", [[[0, 1], [2], 0], [[1, 0], [5], 0], [[6, 3], [], 0]], f"<=2 / <=1 pieces from {A_URL!r}", asyncm=asyncm, shape=sh)
         B("int/float(table)" + sfx, "conv_table_ok", [[0, 0, 0], [9, 0, 1], [len(NUMS), 0, 1], [len(NUMS) + 5, 1, -1]], f"{len(NUMS)} numeric spellings + {len(SPECIALS)} special values (inf, nan, 10**400, containers...)", asyncm=asyncm)
         B("int(base)" + sfx, "int_base_ok", [[5, 3], [0, 2]], "numeric spellings x bases 2/8/10/16", asyncm=asyncm)
-        B("round" + sfx, "round_ok", [[0, 1, 2], [1, 0, 0]], "8 values x precision 0..2 x 4 methods", asyncm=asyncm)
+        B("round" + sfx, "round_ok", [[0, 1, 2], [1, 0, 0]], f"{len(ROUND_VALS)} values (incl. values 1e-11 away from a step) x precision 0..2 x 4 methods", asyncm=asyncm)
         B("format" + sfx, "format_ok", [[0, 0, 1, 1], [2, 1, 0, 0], [0, 2, 0, 0]], "7 format strings x 3 call shapes", asyncm=asyncm)
     return out
